@@ -299,6 +299,36 @@ let dispatch (f : Stdlib.String.t list) : Stdlib.String.t =
       Printf.sprintf "%s\t%s\t%d,%d,%d,%d\t%s"
         (match rej with None -> "ok" | Some i -> "rej:" ^ string_of_int i) (idle_s p)
         (int_of_nat p.sends_ok) (int_of_nat p.commits) (int_of_nat p.sends) (int_of_nat p.pending) (Buffer.contents obs)
+  | ["mime.format"; d] ->
+      (* same token language as harness/src/mime.rs; boundaries must be filled in *)
+      let toks = ref (split ' ' d) in
+      let next () = match !toks with x :: r -> toks := r; x | [] -> failwith "mime eof" in
+      let rec pd () : pdesc =
+        match next () with
+        | "S" ->
+            let kind = next () in let a1 = next () in let a2 = next () in let st = next () in let c = next () in
+            let k = (match kind with
+              | "plain" -> KPlain | "html" -> KHtml
+              | "attach" -> KAttach (unhex a1, unhex a2)
+              | "inline" -> KInline (unhex a1, unhex a2)
+              | _ -> KCustom (unhex a1, (if a2 = "!" then None else Some (cte_of (Stdlib.String.concat "" (List.map (fun x -> Stdlib.String.make 1 (Char.chr (int_of_n x))) (unhex a2))))))) in
+            DSingle (k, st = "1", unhex c)
+        | "M" ->
+            let kind = next () in let a1 = next () in let a2 = next () in let b = next () in let n = int_of_string (next ()) in
+            let k = (match kind with "mixed" -> MMixed | "alternative" -> MAlternative | "related" -> MRelated
+              | "encrypted" -> MEncrypted (unhex a1) | _ -> MSigned (unhex a1, unhex a2)) in
+            let rec kids i = if i = 0 then [] else let x = pd () in x :: kids (i - 1) in
+            DMulti (k, unhex b, kids n)
+        | t -> failwith ("mime token " ^ t) in
+      (match format_desc (pd ()) with Ok o -> "ok\t" ^ hex o | Err _ -> "err" | Panic -> "PANIC")
+  | ["mime.parse"; fuel; h] ->
+      let rec nat_of_int i = if i <= 0 then O else S (nat_of_int (i - 1)) in
+      let fields_s fs = String.concat "," (List.map (fun (n, v) -> hex n ^ ":" ^ hex v) fs) in
+      let rec tree_s = function
+        | TLeaf (fs, body) -> "L(" ^ fields_s fs ^ ";" ^ hex body ^ ")"
+        | TNode (fs, ps) -> "N(" ^ fields_s fs ^ ";" ^ String.concat " " (List.map tree_s ps) ^ ")" in
+      (match parse_entity (nat_of_int (int_of_string fuel)) (unhex h) with Some t -> "some\t" ^ tree_s t | None -> "none")
+  | ["mime.ct_boundary"; v] -> (match ct_boundary (unhex v) with Some b -> "some\t" ^ hex b | None -> "none")
   | fn :: _ -> "UNKNOWN-FN " ^ fn
   | [] -> "EMPTY"
 
